@@ -63,7 +63,7 @@ func scenario(name string, threads [][]string, bound int, run *evid.Run) *vsync.
 
 type opRec struct {
 	id, kind, ret string
-	call, ret_   int
+	call, ret_    int
 }
 
 // checkHistory: (1) at most one accept obtains the stream; (2) a stream that
@@ -204,6 +204,11 @@ func TestC31(t *testing.T) {
 		agg.Add(res, func(v *vsync.Violation) string { return "accept-close-race" })
 	}
 	agg.Finish(true)
+	maxK := 2
+	if !run.Quick() {
+		maxK = 3
+	}
+	exploreOwners(t, run, maxK)
 	run.Cov["preemption_bound"] = bound
 	run.Assumptions = append(run.Assumptions, "scheduling points at every lock/channel/go operation of link/solicit; data-race freedom between them is checked by the separate free-running -race pass")
 	run.Finish(t)
